@@ -209,7 +209,7 @@ _p("C04", modules=["demux", "ports", "keylog", "keylog_unbounded", "framing", "p
    not_under_contract=["QuicSession.handle_packet's own CID learning (C02)"])
 
 
-_p("C15", modules=["keys", "quic_session_c", "quic_tls_c"], level="proof",
+_p("C15", modules=["keys", "quic_session_c", "quic_tls_c", "demux"], level="proof",
    technique="contract-based deductive verification with the cryptographic primitives as uninterpreted functions; per parameter class all PRF loops unroll completely",
    level_text="For all secrets and randoms (symbolic) and every parameter class (12 cipher classes x MAC/PRF hashes; 18 representative suites x valid versions x key-log "
               "label for the installed state): the real key_derivator functions return exactly the RFC 6101 / 2246 / 5246 / 8446 schedules (master secret, key block, "
@@ -248,7 +248,7 @@ _p("C03", modules=["robustness", "demux", "ports", "quic_output", "main_run", "q
    bounded=[{"function": "QuicSession.set_tls_decryptors (key-state invariant)", "bound": "each of the five QUIC-relevant labels at most once per connection (all 32 subsets), one foreign label", "counted_as": "bounded in the multiplicity of labels, unbounded in all values"}],
    not_under_contract=["extract_quic_packet in the QUICK tier (thorough only)"])
 
-_p("C01", modules=["record_protection", "framing", "framing_unbounded", "framing_history", "keys", "cipher_suites", "tcp_output", "robustness", "metadata", "compose_tls", "ports", "packet_c"], level="other",
+_p("C01", modules=["record_protection", "framing", "framing_unbounded", "framing_history", "keys", "cipher_suites", "tcp_output", "robustness", "metadata", "compose_tls", "ports", "packet_c", "demux"], level="other",
    technique="contract-based deductive verification of every link of the TLS pipeline (per-function contracts; primitives uninterpreted); composition on paper",
    level_text="The pipeline is decomposed into links and each link's obligation is discharged on the real code: framing (records released by one extract call = frame(buffered stream), UNBOUNDED loop contract; capture-order history BOUNDED); ServerHello parsing "
               "(random, suite, compression, extension map incl. zero-length last extensions, version rule; bounded to 2 extensions); suite resolution (C14, exhaustive); key "
